@@ -528,6 +528,12 @@ def _scan_instances(tier):
         c0 = dict(kind='cie', version=1, aug='zR', fde_enc='sdata4', fde_pcrel=True)
         c1 = dict(kind='cie', version=1, aug='zR', fde_enc='udata8', pad=3)
         out.append(dict(little=little, addr=addr, eh=True, entries=[c0, dict(kind='fde', cie=0), c1, dict(kind='fde', cie=2), dict(kind='fde', cie=0, pad=1)]))
+        # three CIEs sized so that the RAW displacement stored in the FDE of the third (fde + 4 - cie) equals the section offset of the second:
+        # a displacement is not an offset, whatever entries have been parsed at that offset
+        for p0, p2 in ((4, 0), (6, 2)):
+            cs = [dict(kind='cie', version=1, aug='zR', fde_enc='udata4', pad=p) for p in (p0, 0, p2)]
+            out.append(dict(little=little, addr=addr, eh=True, entries=cs + [dict(kind='fde', cie=2, instr=True), dict(kind='zero')]))
+            out.append(dict(little=little, addr=addr, eh=True, entries=cs + [dict(kind='fde', cie=1), dict(kind='fde', cie=2), dict(kind='zero')]))
     return out
 
 
